@@ -245,6 +245,10 @@ def case_eig(ctx, rng, idx):
     dvec = 10.0 ** rng.uniform(-3, 2, n) * lam[0]
     if rng.random() < 0.2:
         dvec[rng.integers(0, n)] = 0.0
+    if rng.random() < 0.4:
+        # negative updates too (small enough to keep the matrix well conditioned)
+        for _ in range(int(rng.integers(1, n + 1))):
+            dvec[rng.integers(0, n)] = -float(rng.uniform(0.05, 0.5)) * lam[-1]
     invC = np.linalg.inv(C)
     before = copy_args(invC, dvec)
     ok, upd = ctx.call("inverse-diag-update", MISC.update_inv_sum_diag, invC, dvec, detail=d)
@@ -252,7 +256,8 @@ def case_eig(ctx, rng, idx):
         unmutated(ctx, "update_inv_sum_diag", before, [invC, dvec])
         ref = np.linalg.inv(C + np.diag(dvec))
         ctx.within("inverse-diag-update", fro(upd - ref),
-                   256 * EPS * n * kappa ** 2 * fro(invC), None, d)
+                   1024 * EPS * n * kappa ** 2 * fro(invC),
+                   "negative-entries" if np.any(dvec < 0) else "non-negative", d)
     if n > 1:
         ctx.sig("eig", n, real, k, int(math.log10(kappa)))
     ctx.sample("eig", {"n": n, "real": real, "eigenvalues": lam, "k": k})
